@@ -6,6 +6,7 @@ use purr::read::{read, Trace};
 use purr::walk::{walk, Follower};
 use purr::write::Writer;
 use purr::feature::{AtomKind, BondKind, Rnum};
+use purr_verif_harness::family;
 
 struct Span<F: Follower> { inner: F, lo: usize, hi: usize, events: usize }
 impl<F: Follower> Span<F> {
@@ -18,21 +19,6 @@ impl<F: Follower> Follower for Span<F> {
     fn extend(&mut self, b: BondKind, k: AtomKind) { self.mark(); self.inner.extend(b, k) }
     fn join(&mut self, b: BondKind, r: Rnum) { self.mark(); self.inner.join(b, r) }
     fn pop(&mut self, d: usize) { self.mark(); self.inner.pop(d) }
-}
-fn family(name: &str, n: usize) -> String {
-    match name {
-        "chain" => "C".repeat(n),
-        "chain_bonds" => { let mut s = String::from("C"); for _ in 1..n { s.push_str("=C") } s }
-        "dots" => { let mut s = String::from("C"); for _ in 1..n { s.push_str(".C") } s }
-        "dot_rings" => { let mut s = String::from("C1CC1"); for _ in 1..n / 3 { s.push_str(".C1CC1") } s }
-        "branches" => { let mut s = String::from("C"); for _ in 1..n { s.push_str("(C)") } s }
-        "comb" => { let mut s = String::from("C"); for _ in 0..n / 4 { s.push_str("C(C)C") } s }
-        "comb_stereo" => { let mut s = String::from("C"); for _ in 0..n / 3 { s.push_str("[C@H](O)C") } s }
-        "deep" => { let d = n; let mut s = String::from("C"); for _ in 0..d { s.push_str("(C") } for _ in 0..d { s.push(')') } s }
-        "brackets" => "[13CH2]".repeat(n),
-        "nested8" => { let unit = "C(C(C(C(C(C(C(C(C))))))))"; unit.repeat(n / 9) }
-        _ => panic!("unknown family"),
-    }
 }
 fn run(name: String, n: usize) -> String {
     let text = family(&name, n);
